@@ -29,31 +29,25 @@ example : stripUnderlines [49, 95, 46, 53] = none := by decide
 
 /-! ### parsing: the two entry points -/
 
-/-- On ASCII input without a vertical tab, `parse_bytes` and `parse_str` agree. -/
-theorem parse_bytes_eq_parse_str_partial (bs : List Nat) (h : ∀ b ∈ bs, b < 128 ∧ b ≠ 11) :
+/-- On ASCII input `parse_bytes` and `parse_str` agree (both strip space, `\t \n \x0b \x0c \r`;
+    the vertical tab since commit 03089a4). -/
+theorem parse_bytes_eq_parse_str (bs : List Nat) (h : ∀ b ∈ bs, b < 128) :
     parseBytes bs = parseStr bs := by
   unfold parseBytes parseStr
   have hw : ∀ c ∈ bs, isAsciiWhitespace c = isWhitespace c := by
     intro c hc
-    obtain ⟨h1, h2⟩ := h c hc
+    have h1 := h c hc
     simp only [isAsciiWhitespace, isWhitespace]
     by_cases a : c = 32 <;> by_cases b : c = 9 <;> by_cases d : c = 10 <;> by_cases e : c = 12 <;>
-      by_cases f : c = 13 <;> simp [*] <;> omega
+      by_cases f : c = 13 <;> by_cases g : c = 11 <;> simp [*] <;> omega
   rw [trimWith_congr bs hw, utf8Encode_ascii]
   intro c hc
-  exact (h c (mem_trimWith hc)).1
-
-/-- With a vertical tab they differ (`u8::is_ascii_whitespace` excludes it, `char::is_whitespace`
-    and Python's `float()` include it). -/
-def parse_bytes_eq_parse_str_full : Prop := ∀ bs, (∀ b ∈ bs, b < 128) → parseBytes bs = parseStr bs
-
-theorem parse_bytes_vertical_tab_fails : ¬ parse_bytes_eq_parse_str_full :=
-  fun h => absurd (h [11, 49] (by decide)) (by decide +kernel)
-
+  exact h c (mem_trimWith hc)
 
 example : parseBytes [32, 49, 95, 48, 46, 53, 10] = parseStr [32, 49, 95, 48, 46, 53, 10] :=
-  parse_bytes_eq_parse_str_partial _ (by decide)
+  parse_bytes_eq_parse_str _ (by decide)
 example : parseStr [32, 49, 95, 48, 46, 53, 10] = some 0x4025000000000000 := by decide +kernel
+example : parseBytes [11, 49, 11] = some 0x3FF0000000000000 := by decide +kernel     -- b"\x0b1\x0b"
 
 /-! ### repr: special values and shape -/
 
@@ -122,98 +116,20 @@ theorem repr_integer_dot_zero (bits n : Nat) (hf : isFinite bits = true)
 example : toString 0x40FE240000000000 = [49, 50, 51, 52, 53, 54, 46, 48] := by decide +kernel   -- 123456.0
 
 
-/-! ### `is_integer`: where the EPSILON window differs from "is an integer" -/
+/-! ### `is_integer` is exact -/
 
+/-- A finite double passes `is_integer` exactly when its value is an integer. -/
+theorem isInteger_iff_integer (bits : Nat) (hf : isFinite bits = true) :
+    isInteger bits = true ↔
+      ∃ n, (ratOf (decompose bits).2.1 (decompose bits).2.2).1 =
+        n * (ratOf (decompose bits).2.1 (decompose bits).2.2).2 :=
+  ⟨exists_integer_of_isInteger bits hf, fun ⟨n, hn⟩ => isInteger_of_integer bits n hf hn⟩
 
-/-- Which finite doubles pass `is_integer`: true integers; `±(1 − 2^-53) = ±0.9999999999999999`
-    (the only spurious one of ordinary size); and magnitudes below `2^-52` (decimal exponent ≤ −16,
-    always rendered in exponent notation, where `is_integer` is not consulted). -/
-theorem isInteger_cases (bits : Nat) (hf : isFinite bits = true) (h : isInteger bits = true) :
-    (decompose bits).2.2 ≥ 0 ∨
-    (decompose bits).2.1 % 2 ^ (-(decompose bits).2.2).toNat = 0 ∨
-    (expField bits = 1022 ∧ fracField bits = 2 ^ 52 - 1) ∨
-    (decompose bits).2.1 * 2 ^ 52 < 2 ^ (-(decompose bits).2.2).toNat := by
-  have hfr := fracField_lt bits
-  unfold isInteger at h
-  simp only [hf, Bool.not_true, Bool.false_eq_true, if_false] at h
-  have hm : (decompose bits).2.1 < 2 ^ 53 := by
-    unfold decompose; simp only; split <;> simp <;> omega
-  have he : (decompose bits).2.2 = if expField bits = 0 then -1074 else (expField bits : Int) - 1075 := by
-    unfold decompose; simp only; split <;> simp_all
-  have hmv : (decompose bits).2.1 = if expField bits = 0 then fracField bits else fracField bits + 2 ^ 52 := by
-    unfold decompose; simp only; split <;> simp_all
-  generalize (decompose bits).2.1 = m at *
-  generalize (decompose bits).2.2 = e at *
-  by_cases hge : e ≥ 0
-  · exact Or.inl hge
-  · right
-    simp only [hge, if_false, decide_eq_true_eq] at h
-    generalize hk : (-e).toNat = k at *
-    have hden : 0 < 2 ^ k := Nat.pow_pos (by omega)
-    by_cases hr : m % 2 ^ k = 0
-    · exact Or.inl hr
-    · right
-      have hrlt := Nat.mod_lt m hden
-      have h52 : 2 ^ 52 < 2 ^ k := by
-        split at h <;> omega
-      have hk52 : 52 < k := (Nat.pow_lt_pow_iff_right (a := 2) (by omega)).1 h52
-      have h53 : 2 ^ 53 ≤ 2 ^ k := Nat.pow_le_pow_right (by omega) (by omega)
-      have hmod : m % 2 ^ k = m := Nat.mod_eq_of_lt (by omega)
-      rw [hmod] at h hr
-      by_cases hk53 : k = 53
-      · left
-        have hd53 : 2 ^ k = 9007199254740992 := by rw [hk53]
-        have hexp : ¬ expField bits = 0 := by
-          intro h0; rw [h0] at he; simp at he; omega
-        simp only [hexp, if_false] at he hmv
-        refine ⟨by omega, ?_⟩
-        rw [hd53] at h
-        by_cases hc : m ≤ 9007199254740992 - m
-        · simp only [hc, if_true] at h; omega
-        · simp only [hc, if_false] at h; omega
-      · right
-        have h54 : 2 ^ 54 ≤ 2 ^ k := Nat.pow_le_pow_right (by omega) (by omega)
-        by_cases hc : m ≤ 2 ^ k - m
-        · simp only [hc, if_true] at h; exact h
-        · exfalso
-          generalize 2 ^ k = D at *
-          simp only [Nat.reducePow] at hm h54
-          omega
-
-
-example : isInteger 0x3FEFFFFFFFFFFFFF = true := by decide +kernel      -- 0.9999999999999999
+example : isInteger 0x3FEFFFFFFFFFFFFF = false := by decide +kernel     -- 0.9999999999999999
 example : isInteger 0x3FF0000000000001 = false := by decide +kernel     -- 1.0000000000000002
 example : isInteger 0x4341C37937E08000 = true := by decide +kernel      -- 1e16
 
 /-! ### repr: round trip -/
-
-/-- Round trip of the repr-style rendering, for every finite double on which digit generation
-    behaves (`DecFacts`, which fails exactly at `±0.9999999999999999`, see `repr_roundtrip_fails`):
-    `parse_str(to_string(x)) = x`, bit for bit. -/
-theorem repr_roundtrip_partial (bits : Nat) (hf : isFinite bits = true) (h : DecFacts bits) :
-    parseStr (toString bits) = some bits := by
-  unfold toString
-  simp only [hf, if_true]
-  rw [show (shortestExpL bits) = ((shortestExpL bits).1, (shortestExpL bits).2) from rfl]
-  simp only
-  by_cases hr : (shortestExpL bits).2 < 16 ∧ (shortestExpL bits).2 > -5
-  · simp only [hr, and_self, if_true]
-    by_cases hi : isInteger bits = true
-    · simp only [hi, if_true]
-      rw [shortestExpL_snd] at hr
-      exact roundtrip_fixed1 bits hf (h.2.1 hr hi)
-    · simp only [hi]
-      have hi' : isInteger bits = false := by simpa using hi
-      exact roundtrip_shortestFixed bits hf h (h.2.2 hi')
-  · simp only [hr, if_false]
-    exact roundtrip_exp bits h
-
-
--- 1/3, 1e22, 5e-324, 123456.0 all satisfy the hypothesis
-example : DecFacts 0x3FD5555555555555 := by decide +kernel
-example : DecFacts 0x4480F0CF064DD592 := by decide +kernel
-example : DecFacts 1 := by decide +kernel
-example : DecFacts 0x40FE240000000000 := by decide +kernel
 
 /-- Unconditional round trip for integer-valued doubles in the fixed-notation range (|n| < 10^16):
     `parse_str(to_string(x)) = x`, proved down to the bits, digit generation included. -/
@@ -274,28 +190,56 @@ example : parseStr (toString 0x40FE240000000000) = some 0x40FE240000000000 :=
   repr_roundtrip_integer _ 123456 (by decide) (by decide +kernel) (by decide +kernel) (by decide +kernel)
 
 
-/-- The unrestricted round trip fails: `0.9999999999999999` (`1 - 2^-53`) passes the
-    `is_integer` test (`|v - round v| = 2^-53 < EPSILON`), is rendered `1.0` and parses back to `1.0`. -/
-def repr_roundtrip_full : Prop :=
-  ∀ bits, isFinite bits = true → parseStr (toString bits) = some bits
+/-- Round trip of the repr-style rendering: `parse_str(to_string(x)) = x`, bit for bit, for every
+    finite double; integer-valued doubles in fixed notation need no hypothesis, the others the two
+    digit-generation facts `DecFacts` (shortest digits round back; a non-integer has fraction digits). -/
+theorem repr_roundtrip_partial (bits : Nat) (hb : bits < 2 ^ 64) (hf : isFinite bits = true)
+    (h : DecFacts bits) : parseStr (toString bits) = some bits := by
+  by_cases hr : (shortest bits).2 < 16 ∧ (shortest bits).2 > -5
+  · by_cases hi : isInteger bits = true
+    · obtain ⟨n, hn⟩ := exists_integer_of_isInteger bits hf hi
+      exact repr_roundtrip_integer bits n hb hf hn hr
+    · have hi' : isInteger bits = false := by simpa using hi
+      unfold toString
+      simp only [hf, if_true]
+      rw [show (shortestExpL bits) = ((shortestExpL bits).1, (shortestExpL bits).2) from rfl]
+      simp only [shortestExpL_snd, hr, and_self, if_true, hi', Bool.false_eq_true, if_false]
+      exact roundtrip_shortestFixed bits hf h (h.2 hi')
+  · unfold toString
+    simp only [hf, if_true]
+    rw [show (shortestExpL bits) = ((shortestExpL bits).1, (shortestExpL bits).2) from rfl]
+    simp only [shortestExpL_snd, hr, if_false]
+    have := roundtrip_exp bits h
+    rw [shortestExpL_snd] at this
+    exact this
 
-theorem repr_roundtrip_fails : ¬ repr_roundtrip_full :=
-  fun h => absurd (h 0x3FEFFFFFFFFFFFFF (by decide +kernel)) (by decide +kernel)
-
-example : toString 0x3FEFFFFFFFFFFFFF = [49, 46, 48] := by decide +kernel
-example : ¬ DecFacts 0x3FEFFFFFFFFFFFFF := by decide +kernel
+-- 1/3, 1e22, 5e-324, 123456.0 and 0.9999999999999999 all satisfy the hypothesis
+example : DecFacts 0x3FD5555555555555 := by decide +kernel
+example : DecFacts 0x4480F0CF064DD592 := by decide +kernel
+example : DecFacts 1 := by decide +kernel
+example : DecFacts 0x40FE240000000000 := by decide +kernel
+example : DecFacts 0x3FEFFFFFFFFFFFFF := by decide +kernel
+-- the value that `is_integer`'s former EPSILON window rounded to "1.0" (fixed by 5be0365)
+example : toString 0x3FEFFFFFFFFFFFFF = [48,46,57,57,57,57,57,57,57,57,57,57,57,57,57,57,57,57] := by decide +kernel
+example : parseStr (toString 0x3FEFFFFFFFFFFFFF) = some 0x3FEFFFFFFFFFFFFF :=
+  repr_roundtrip_partial _ (by decide) (by decide +kernel) (by decide +kernel)
 
 /-! ### hexadecimal text -/
 
-/-- `to_hex` prints exactly `float.hex()` for every double that is not a non-zero subnormal. -/
-theorem hex_eq_py_partial (bits : Nat) (h : expField bits ≠ 0 ∨ fracField bits = 0) :
-    toHex bits = pyHex bits := by
+/-- `to_hex` prints exactly `float.hex()`, for every double (subnormals included since 8617a1f). -/
+theorem hex_eq_py (bits : Nat) : toHex bits = pyHex bits := by
   have hf := fracField_lt bits
-  unfold toHex pyHex integerDecode
+  unfold toHex pyHex
+  rw [hexMantExp_eq]
   simp only [isZero, isInf, isNan]
   by_cases he : expField bits = 0
-  · have hz : fracField bits = 0 := by omega
-    simp [he, hz]
+  · by_cases hz : fracField bits = 0
+    · simp [he, hz]
+    · have hdiv : fracField bits / 2 ^ 52 = 0 := by omega
+      have hmod : fracField bits % 2 ^ 52 = fracField bits := by omega
+      have h0 : hexNat 0 = [48] := by decide
+      simp only [he, if_true, hdiv, hmod, h0, hex13_eq _ hf, showSigned]
+      simp [hz]
   · by_cases h2 : expField bits = 2047
     · by_cases hz : fracField bits = 0 <;> simp [h2, hz, sInf, sNan]
     · have hdiv : (fracField bits + 2 ^ 52) / 2 ^ 52 = 1 := by omega
@@ -305,16 +249,9 @@ theorem hex_eq_py_partial (bits : Nat) (h : expField bits ≠ 0 ∨ fracField bi
       have : ((expField bits : Int) - 1075 + 52) = (expField bits : Int) - 1023 := by omega
       simp [this, he, h2]
 
-
-/-- The full statement (`to_hex` = `float.hex()` for every double) fails on subnormals: the
-    doubled mantissa of `integer_decode` is printed with exponent `-1023`. -/
-def hex_eq_py_full : Prop := ∀ bits, toHex bits = pyHex bits
-
-theorem hex_eq_py_fails : ¬ hex_eq_py_full := fun h => absurd (h 1) (by decide +kernel)
-
-example : toHex 0x3FF8000000000000 = pyHex 0x3FF8000000000000 := by decide +kernel
--- 5e-324: "0x0.0000000000002p-1023" instead of "0x0.0000000000001p-1022"
-example : toHex 1 = [48,120,48,46,48,48,48,48,48,48,48,48,48,48,48,48,50,112,45,49,48,50,51] := by decide +kernel
+example : toHex 0x3FF8000000000000 = pyHex 0x3FF8000000000000 := hex_eq_py _
+-- 5e-324: "0x0.0000000000001p-1022"
+example : toHex 1 = [48,120,48,46,48,48,48,48,48,48,48,48,48,48,48,48,49,112,45,49,48,50,50] := by decide +kernel
 
 /-- Hex round trip for every finite non-zero double on which hexf's conversion behaves
     (`HexFacts`): the scanner recovers `to_hex`'s mantissa digits and exponent exactly. -/
@@ -326,13 +263,14 @@ theorem hex_roundtrip_partial (bits : Nat) (hf : isFinite bits = true) (hz : isZ
   unfold HexFacts at h
   unfold toHex
   simp only [hz, finite_not_inf hf, finite_not_nan hf, Bool.false_eq_true, if_false]
-  generalize hid : integerDecode bits = id at *
+  have hid0 := hexMantExp_eq bits
+  generalize hid : hexMantExp bits = id at *
   obtain ⟨mant, ex⟩ := id
   simp only at h ⊢
-  have hmant : mant = if expField bits = 0 then fracField bits * 2 else fracField bits + 2 ^ 52 := by
-    have := congrArg Prod.fst hid; simpa [integerDecode] using this.symm
-  have hex : ex = (expField bits : Int) - 1075 := by
-    have := congrArg Prod.snd hid; simpa [integerDecode] using this.symm
+  have hmant : mant = if expField bits = 0 then fracField bits else fracField bits + 2 ^ 52 :=
+    congrArg Prod.fst hid0
+  have hex : ex = if expField bits = 0 then -1074 else (expField bits : Int) - 1075 :=
+    congrArg Prod.snd hid0
   have hm0 : mant ≠ 0 := by
     rw [hmant]
     split
@@ -349,7 +287,7 @@ theorem hex_roundtrip_partial (bits : Nat) (hf : isFinite bits = true) (hz : isZ
   obtain ⟨sgn, ds, s1, s2, s3, s4, s5, s6⟩ := showSigned_value (ex + 52)
   rw [s1]
   have hbound : ofDigits ds ≤ isizeMax := by
-    rw [s5, hex]; simp only [isizeMax]; omega
+    rw [s5, hex]; simp only [isizeMax]; split <;> omega
   have e16 : (16 : Nat) ^ 13 = 2 ^ 52 := by decide
   have hval : mant / 2 ^ 52 * 16 ^ 13 + ofHex (hexVals 13 (mant % 2 ^ 52)) = mant := by
     rw [ofHex_hexVals 13 _ (by rw [e16]; exact hf'), e16]
@@ -481,12 +419,10 @@ example : formatFixed 2 0x4005666666666666 false false = [50, 46, 54, 55] := by 
 example : formatFixed 0 0x4004000000000000 false false = [50] := by decide +kernel
 example : formatExponent 0 0x4014000000000000 false true = [53, 46, 101, 43, 48, 48] := by decide +kernel
 
-/-- `format_general` (with `always_shows_fract = false`) is C's `%.{prec}g` / `%#.{prec}g` for every
-    precision ≥ 1 and every non-negative double: same `e`/`f` decision (`X < -4 ∨ X ≥ P`), same
-    digits, same removal of trailing zeros and of a trailing point. -/
-theorem general_decision_eq_printf (prec bits : Nat) (upper alt : Bool) (hp : 1 ≤ prec) (hs : isNeg bits = false) :
-    formatGeneral prec bits upper alt false = cPrintfG prec bits upper alt := by
-  unfold formatGeneral cPrintfG
+/-- the body of `format_general` is `%g` for every precision ≥ 1 -/
+theorem general_core_eq_printf (prec bits : Nat) (upper alt : Bool) (hp : 1 ≤ prec) (hs : isNeg bits = false) :
+    formatGeneralCore prec bits upper alt false = cPrintfG prec bits upper alt := by
+  unfold formatGeneralCore cPrintfG
   by_cases hf : isFinite bits = true
   · have hp0 : ¬ prec = 0 := by omega
     simp only [hf, if_true, Bool.not_true, Bool.false_eq_true, if_false, hp0, hs]
@@ -558,13 +494,23 @@ example : formatGeneral 3 0x40F86A0000000000 false false false = [49, 101, 43, 4
 example : formatGeneral 6 0x40F86A0000000000 false false false = [49, 48, 48, 48, 48, 48] := by decide +kernel
 example : formatGeneral 3 0x3FF0000000000000 false true false = [49, 46, 48, 48] := by decide +kernel
 
-/-- The full statement (every precision 0..20) fails at precision 0: C treats it as 1,
-    `format_general` does not (its callers substitute 1 themselves). -/
-def general_eq_printf_full : Prop :=
-  ∀ prec bits upper alt, isNeg bits = false → formatGeneral prec bits upper alt false = cPrintfG prec bits upper alt
+/-- `format_general` (with `always_shows_fract = false`) is C's `%.{prec}g` / `%#.{prec}g` for EVERY
+    precision (0 is treated as 1 on both sides since 668a737) and every non-negative double: same
+    `e`/`f` decision (`X < -4 ∨ X ≥ P`), same digits, same removal of trailing zeros and of a
+    trailing point. -/
+theorem general_decision_eq_printf (prec bits : Nat) (upper alt : Bool) (hs : isNeg bits = false) :
+    formatGeneral prec bits upper alt false = cPrintfG prec bits upper alt := by
+  unfold formatGeneral
+  rw [general_core_eq_printf (max prec 1) bits upper alt (Nat.le_max_right _ _) hs]
+  unfold cPrintfG
+  by_cases h0 : prec = 0
+  · subst h0; rfl
+  · have : max prec 1 = prec := Nat.max_eq_left (by omega)
+    rw [this]
 
-theorem general_precision0_fails : ¬ general_eq_printf_full :=
-  fun h => absurd (h 0 0x4014000000000000 false false rfl) (by decide +kernel)
+-- '%.0g' % 5.0 = "5", '%#.0g' % 0.0 = "0."
+example : formatGeneral 0 0x4014000000000000 false false false = [53] := by decide +kernel
+example : formatGeneral 0 0 true true false = [48, 46] := by decide +kernel
 
 /-! ### `from_hex`: inexact input (known finding) -/
 
